@@ -108,12 +108,15 @@ struct SimSocket {
     aborted: Mutex<bool>,
     sent_since_input: Mutex<u64>,
     proj: Option<FileProj>,
+    muted: Arc<std::sync::atomic::AtomicBool>,
+    /// blocks of the unrecorded conformant prefix already played by the socket itself
+    ff: Mutex<i64>,
 }
 
 impl SimSocket {
     fn flush_hook_events(&self) {
-        let evs = verif::take(std::thread::current().id());
-        if evs.is_empty() {
+        let evs = verif::take();
+        if evs.is_empty() || self.muted.load(std::sync::atomic::Ordering::Relaxed) {
             return;
         }
         let mut log = self.log.lock().unwrap();
@@ -174,7 +177,6 @@ pub fn hook_event_json(ev: &verif::Event) -> Value {
             retry_cnt,
             filled,
         } => json!({"e":"snap","s":*sending,"bn":*block_number,"wl":*window_len,"rc":*retry_cnt,"eof":!*filled}),
-        verif::Event::Outcome { ok } => json!({"e":"outcome","ok":*ok}),
     }
 }
 
@@ -198,6 +200,9 @@ impl Socket for SimSocket {
         }
         // the real encoder is part of the path: a packet that does not serialize is not sent
         packet.serialize()?;
+        if self.muted.load(std::sync::atomic::Ordering::Relaxed) {
+            return Ok(());
+        }
         let v = self.describe(packet);
         self.log.lock().unwrap().push(v);
         Ok(())
@@ -211,6 +216,30 @@ impl Socket for SimSocket {
         self.flush_hook_events();
         if *self.aborted.lock().unwrap() {
             return Err("aborted".into());
+        }
+        *self.sent_since_input.lock().unwrap() = 0;
+        // unrecorded conformant prefix (fast-forward to base0), played without the harness:
+        // a sender is acknowledged window by window, a receiver is fed blocks 1..base0
+        {
+            let mut ff = self.ff.lock().unwrap();
+            if *ff < self.cfg.base0 {
+                if self.cfg.sending {
+                    let target = (*ff + self.cfg.w).min(self.cfg.base0).min(self.cfg.nb);
+                    *ff = target;
+                    if target == self.cfg.base0 {
+                        self.muted.store(false, std::sync::atomic::Ordering::SeqCst);
+                    }
+                    return Ok(Packet::Ack((target % self.cfg.m) as u16));
+                } else {
+                    *ff += 1;
+                    return Ok(Packet::Data {
+                        block_num: (*ff % self.cfg.m) as u16,
+                        data: payload(*ff as u32, self.cfg.blk),
+                    });
+                }
+            } else if self.muted.load(std::sync::atomic::Ordering::Relaxed) {
+                self.muted.store(false, std::sync::atomic::Ordering::SeqCst);
+            }
         }
         let _ = self.notes.lock().unwrap().send(Note::Ready);
         let input = self.rx.lock().unwrap().recv().unwrap_or(Input::Abort);
@@ -267,6 +296,7 @@ pub struct Sim {
     pub path: PathBuf,
     pub closed: bool,
     pub hung: bool,
+    muted: Arc<std::sync::atomic::AtomicBool>,
 }
 
 const STEP_DEADLINE: Duration = Duration::from_secs(20);
@@ -290,14 +320,17 @@ impl Sim {
         let log = Arc::new(Mutex::new(Vec::new()));
         let (tx, rx) = channel();
         let (ntx, nrx) = channel();
+        let muted = Arc::new(std::sync::atomic::AtomicBool::new(cfg.base0 > 0));
         let sock = SimSocket {
+            muted: muted.clone(),
+            ff: Mutex::new(0),
             cfg: cfg.clone(),
             log: log.clone(),
             rx: Mutex::new(rx),
             notes: Mutex::new(ntx),
             aborted: Mutex::new(false),
             sent_since_input: Mutex::new(0),
-            proj: if cfg.sending {
+            proj: if cfg.sending || cfg.devfull {
                 None
             } else {
                 Some(FileProj {
@@ -330,7 +363,17 @@ impl Sim {
             path,
             closed: false,
             hung: false,
+            muted,
         }
+    }
+
+    /// While muted, sends are performed but neither projected nor logged (fast-forward).
+    pub fn mute(&self, on: bool) {
+        self.muted.store(on, std::sync::atomic::Ordering::SeqCst);
+    }
+
+    pub fn is_muted(&self) -> bool {
+        self.muted.load(std::sync::atomic::Ordering::SeqCst)
     }
 
     /// Waits until the worker asks for its next datagram (true) or has dropped its socket (false).
@@ -391,12 +434,11 @@ impl Sim {
         let tid = handle.thread().id();
         if self.closed {
             let joined = handle.join();
-            let mut ok = json!("none");
-            for ev in verif::take(tid) {
-                if let verif::Event::Outcome { ok: o } = ev {
-                    ok = json!(if o { "true" } else { "false" });
-                }
-            }
+            let mut ok = match verif::take_outcome(tid) {
+                Some(true) => json!("true"),
+                Some(false) => json!("false"),
+                None => json!("none"),
+            };
             if joined.is_err() {
                 ok = json!("panic");
             }
@@ -419,7 +461,7 @@ impl Sim {
             let _ = self.tx.send(Input::Abort);
             // the worker retries on the aborted socket until it gives up
             let _ = handle.join();
-            let _ = verif::take(tid);
+            let _ = verif::take_outcome(tid);
             self.log.lock().unwrap().truncate(keep);
         }
         let log = std::mem::take(&mut *self.log.lock().unwrap());
@@ -461,48 +503,6 @@ pub fn input_payload(cfg: &Cfg, id: u32, sz: &str) -> Vec<u8> {
     }
 }
 
-/// Unrecorded conformant prefix: brings a sender to `base = base0` / a receiver to
-/// `acc = base0`, then clears the log so that recording starts in the spec's initial state.
-fn fast_forward(sim: &mut Sim) -> bool {
-    let cfg = sim.cfg.clone();
-    if cfg.base0 == 0 {
-        return true;
-    }
-    if cfg.sending {
-        let mut base: i64 = 0;
-        while base < cfg.base0 {
-            if !sim.wait_ready() {
-                return false;
-            }
-            let target = (base + cfg.w).min(cfg.base0).min(cfg.nb);
-            if target == cfg.base0 {
-                sim.clear_log();
-            }
-            sim.deliver(ack_bytes((target % cfg.m) as u16), 0);
-            base = target;
-        }
-    } else {
-        for i in 1..=cfg.base0 {
-            if !sim.wait_ready() {
-                return false;
-            }
-            sim.deliver(
-                data_bytes((i % cfg.m) as u16, &payload(i as u32, cfg.blk)),
-                0,
-            );
-        }
-        if !sim.wait_ready() {
-            return false;
-        }
-        sim.clear_log();
-        // the snapshot that preceded this Ready was cleared with the log: put it back
-        // by letting the first recorded step begin without one (the trace spec accepts
-        // an `in` with no preceding snap)
-        return true;
-    }
-    true
-}
-
 /// Runs one script (cfg + steps) on the real worker and returns the recorded events,
 /// starting with a `cfg` event.
 pub fn run_script(script: &Value, sid: usize, dir: &Path) -> Vec<Value> {
@@ -525,14 +525,6 @@ pub fn run_script(script: &Value, sid: usize, dir: &Path) -> Vec<Value> {
     let mut sim = Sim::start(cfg.clone(), dir);
     let mut events = vec![head];
     let mut pending_ready = false;
-    if cfg.base0 > 0 {
-        if !fast_forward(&mut sim) {
-            events.push(json!({"e":"ffail"}));
-            events.extend(sim.finish());
-            return events;
-        }
-        pending_ready = !cfg.sending;
-    }
     let empty = vec![];
     let steps = script["steps"].as_array().unwrap_or(&empty);
     for (idx, step) in steps.iter().enumerate() {
